@@ -192,7 +192,26 @@ fn check(ctx: &mut Ctx, f: Fmt, x: &LexNarsese, family: &str) {
             ctx.report.bump(if a || b { "interleaved-truncated-inputs.accepted" } else { "interleaved-truncated-inputs.rejected" });
         }
     }
-    if let Some(w) = failure(f, x) {
+    // size guard: the lexical parser re-materialises the rest of the input at every position
+    // (quadratic); values whose text exceeds 8000 characters are counted, not parsed
+    if f.l().format_narsese(x).chars().count() > 8000 {
+        ctx.report.bump("skipped-oversize(>8000 chars)");
+        return;
+    }
+    let t0 = std::time::Instant::now();
+    let verdict = failure(f, x);
+    let us = t0.elapsed().as_micros() as u64;
+    ctx.report.hist_max("max.roundtrip_us", us);
+    if us > 2_000_000 {
+        let text = f.l().format_narsese(x);
+        ctx.report.bump("slow-roundtrips(>2s)");
+        ctx.report.note("slowest_roundtrip", J::from(format!("{} ms for a {}-char string in {} (depth {})", us / 1000, text.chars().count(), f.name(), match x {
+            LexNarsese::Term(t) => lexgen::lex_depth(t),
+            LexNarsese::Sentence(s) => lexgen::lex_depth(&s.term),
+            LexNarsese::Task(t) => lexgen::lex_depth(&t.sentence.term),
+        })));
+    }
+    if let Some(w) = verdict {
         let small = shrink(f, x);
         let w2 = failure(f, &small).unwrap_or(w);
         ctx.report.violate(
